@@ -6,7 +6,8 @@
    `firsts`: any function returning a permutation of its argument. *)
 From Coq Require Import List NArith Permutation.
 Import ListNotations.
-Require Import Base.Wire Base.PyStr C20.Model C20.Sort C20.Lemmas C20.History C20.Failure.
+Require Import Base.Wire Base.PyStr C20.Model C20.AuxList C20.Sort C20.Lemmas C20.History C20.Failure
+               C20.Invariant C20.Dispatch C20.Sharing C20.Examples.
 
 (* addCallback, for EVERY set-iteration oracle: either the new list is a permutation of
    old ++ [new] in which every declared edge (a before b) holds, or AssertionError is raised and
@@ -141,9 +142,192 @@ Proof.
 Qed.
 Print Assumptions C20_failed_reload_keeps_set_refuted.
 
-(* the commands answered are those of the registered callbacks (dispatch itself: C14) *)
-Theorem C20_commands_union_partial :
-  forall cbs cmd, answers cbs cmd = true <->
-  exists c, In c cbs /\ existsb (seq_eqb cmd) (ccmds c) = true.
-Proof. intros cbs cmd. unfold answers. apply existsb_exists. Qed.
-Print Assumptions C20_commands_union_partial.
+
+(* ================= command resolution (findCallbacksForArgs / finalEval) ================= *)
+(* [canon] is callbacks.canonicalName (any function); [g] the defaultPlugins configuration (any);
+   [args] the canonicalised tokens.  Flat plugins: no sub-command groups, no disabled commands. *)
+
+(* only a command of a registered callback resolves; an ambiguity error names ALL callbacks having
+   the command with the longest match, at least two; nothing resolves iff nobody has the command *)
+Theorem C20_resolution_sound :
+  forall lower canon g args cbs, NoDup (ids cbs) ->
+  (forall c k, final_eval lower canon g cbs args = Call c k ->
+     In c cbs /\ (0 < k)%nat /\ get_command canon c args = k) /\
+  (forall l, final_eval lower canon g cbs args = Ambiguous l ->
+     (2 <= length l)%nat /\
+     forall c, In c l <-> (In c cbs /\ (0 < get_command canon c args)%nat /\
+                           forall d, In d cbs -> (get_command canon d args <= get_command canon c args)%nat)) /\
+  (final_eval lower canon g cbs args = Invalid <-> forall c, In c cbs -> get_command canon c args = O).
+Proof.
+  intros lower canon g args cbs Hnd. split; [|split].
+  - intros c k. apply final_eval_call. exact Hnd.
+  - intros l. apply final_eval_ambiguous_iff.
+  - apply final_eval_invalid.
+Qed.
+Print Assumptions C20_resolution_sound.
+
+(* `plugin command ...` always reaches that plugin's command: never shadowed, whatever else is
+   registered and whatever the configuration (canonical plugin names pairwise distinct) *)
+Theorem C20_qualified_never_shadowed :
+  forall lower canon g cbs c cmd rest, NoDup cbs -> In c cbs -> is_cmd c cmd = true ->
+  (forall d, In d cbs -> cb_canon canon d = cb_canon canon c -> d = c) ->
+  final_eval lower canon g cbs (cb_canon canon c :: cmd :: rest) = Call c 2.
+Proof. exact qualified_resolves. Qed.
+Print Assumptions C20_qualified_never_shadowed.
+
+(* the bare form: the callbacks having the command, narrowed by the three documented rules (own
+   name, configured default plugin, single important plugin), else all of them (ambiguity error) *)
+Theorem C20_bare_rules :
+  forall lower canon g cbs cmd, holders cbs cmd <> [] ->
+  find_callbacks lower canon g cbs [cmd] = (1%nat, tie_rules lower canon g cbs (holders cbs cmd) cmd).
+Proof. exact bare_resolves. Qed.
+Print Assumptions C20_bare_rules.
+
+Theorem C20_bare_unique_holder :
+  forall lower canon g cbs cmd c, NoDup (ids cbs) -> holders cbs cmd = [c] ->
+  final_eval lower canon g cbs [cmd] = Call c 1.
+Proof. exact bare_unique_holder. Qed.
+Print Assumptions C20_bare_unique_holder.
+
+(* after EVERY history (successful or failing operations, any import/constructor/die outcome):
+   what resolves is exactly what the registered callbacks have -- replaces C20_commands_union_partial *)
+Theorem C20_commands_after_history :
+  forall lower canon world g ops s, Forall op_ok ops -> wf_st lower s ->
+  let l := s_cbs (steps lower world s ops) in
+  (forall args c k, final_eval lower canon g l args = Call c k ->
+     In c l /\ (0 < k)%nat /\ get_command canon c args = k) /\
+  (forall args c k p, final_eval lower canon g l args = Call c k ->
+     get_callback lower l p = None -> lower (cname c) <> lower p) /\
+  (forall args, final_eval lower canon g l args = Invalid <->
+     forall c, In c l -> get_command canon c args = O) /\
+  (forall c cmd rest, In c l -> is_cmd c cmd = true ->
+     (forall d, In d l -> cb_canon canon d = cb_canon canon c -> d = c) ->
+     final_eval lower canon g l (cb_canon canon c :: cmd :: rest) = Call c 2) /\
+  (forall c cmd, holders l cmd = [c] -> final_eval lower canon g l [cmd] = Call c 1).
+Proof.
+  intros lower canon world g ops s Hops Hw l.
+  pose proof (steps_wf lower world ops s Hops Hw) as [Hn [Hi _]]. fold l in Hn, Hi.
+  split; [|split; [|split; [|split]]].
+  - intros args c k. apply final_eval_call. exact Hi.
+  - intros args c k p Hc Hg E. destruct (final_eval_call lower canon g args l c k Hi Hc) as [Hin _].
+    unfold get_callback in Hg. pose proof (find_none _ _ Hg c Hin) as Hf. unfold name_is in Hf.
+    rewrite E, seq_eqb_refl in Hf. discriminate.
+  - intro args. apply final_eval_invalid.
+  - intros c cmd rest. apply qualified_resolves. apply (NoDup_map_NoDup cid). exact Hi.
+  - intros c cmd. apply bare_unique_holder. exact Hi.
+Qed.
+Print Assumptions C20_commands_after_history.
+
+(* ================= the history-level invariant ================= *)
+(* after every history: registered once (by folded name), distinct objects, the list is a
+   topological order of every callBefore/callAfter/Owner/Misc constraint declared among the
+   registered callbacks, and (started with the core dispatcher at the head, no direct
+   removeCallback("Owner")) Owner is callbacks[0] *)
+Theorem C20_history_invariant :
+  forall lower world ops s, Forall op_ok ops -> Forall (op_guarded lower) ops ->
+  good_st lower s -> owner_head lower (s_cbs s) ->
+  let l := s_cbs (steps lower world s ops) in
+  NoDup (names lower l) /\ NoDup (ids l) /\
+  (forall a b, In (a, b) (declared_edges lower l) -> (idx a (ids l) < idx b (ids l))%nat) /\
+  owner_head lower l.
+Proof.
+  intros lower world ops s Hops Hg Hs Ho l.
+  pose proof (steps_good lower world ops s Hops Hs) as [[Hn [Hi _]] Ht].
+  split; [exact Hn|]. split; [exact Hi|]. split.
+  - intros a b He. apply ordered_idx. apply Ht. exact He.
+  - apply steps_owner; auto. apply Hs.
+Qed.
+Print Assumptions C20_history_invariant.
+
+(* from the empty dispatcher, for every history at all *)
+Theorem C20_history_invariant_from_empty :
+  forall lower world ops, Forall op_ok ops ->
+  let l := s_cbs (steps lower world st0 ops) in
+  NoDup (names lower l) /\ NoDup (ids l) /\
+  (forall a b, In (a, b) (declared_edges lower l) -> (idx a (ids l) < idx b (ids l))%nat).
+Proof.
+  intros lower world ops Hops l.
+  pose proof (steps_good lower world ops st0 Hops (good_st0 lower)) as [[Hn [Hi _]] Ht].
+  split; [exact Hn|]. split; [exact Hi|]. intros a b He. apply ordered_idx. apply Ht. exact He.
+Qed.
+Print Assumptions C20_history_invariant_from_empty.
+
+(* a failed operation, at any point of any history, leaves the list a permutation of what it was.
+   Domain op_dom: not a reload whose import succeeds (replace-phase failures: known finding
+   C20.F21), not an unload whose die() raises (the plugin is removed as asked) *)
+Theorem C20_failed_op_keeps_set :
+  forall lower world ops s x s' r, Forall op_ok ops -> good_st lower s -> op_ok x -> op_dom x ->
+  step lower world (steps lower world s ops) x = (s', r) -> r <> Ok 0%N ->
+  Permutation (s_cbs s') (s_cbs (steps lower world s ops)).
+Proof.
+  intros lower world ops s x s' r Hops Hs Hx Hd E Hr.
+  apply (step_failed_perm lower world (steps lower world s ops) x s' r Hx Hd); auto.
+  apply steps_good; assumption.
+Qed.
+Print Assumptions C20_failed_op_keeps_set.
+
+(* ================= several networks ================= *)
+(* the regenerated inventory of writes to self.callbacks in class Irc contains no rebinding *)
+Theorem C20_callbacks_never_rebound : never_rebound = true.
+Proof. exact callbacks_never_rebound. Qed.
+Print Assumptions C20_callbacks_never_rebound.
+
+(* after every history of operations issued through any Irc objects, all Irc objects -- those
+   created afterwards included -- see the same dispatcher list and resolve the same commands *)
+Theorem C20_all_networks_agree :
+  forall lower canon world g l h1 h2,
+  let b := bsteps lower world bot0 l in
+  In h1 (map fst (b_refs b)) -> In h2 (map fst (b_refs b)) ->
+  view b h1 = view b h2 /\
+  forall args, final_eval lower canon g (view b h1) args = final_eval lower canon g (view b h2) args.
+Proof.
+  intros lower canon world g l h1 h2 b H1 H2.
+  pose proof (all_networks_agree lower world l h1 h2 H1 H2) as E. fold b in E.
+  split; [exact E|]. intro args. rewrite E. reflexivity.
+Qed.
+Print Assumptions C20_all_networks_agree.
+
+(* and what every network sees satisfies the history invariant *)
+Theorem C20_networks_invariant :
+  forall lower world l h, Forall bop_ok l -> Forall (bop_guarded lower) l ->
+  let b := bsteps lower world bot0 l in
+  In h (map fst (b_refs b)) ->
+  let v := view b h in
+  NoDup (names lower v) /\ NoDup (ids v) /\
+  (forall a c, In (a, c) (declared_edges lower v) -> (idx a (ids v) < idx c (ids v))%nat).
+Proof.
+  intros lower world l h Hok Hg b Hh v.
+  assert (Hs0 : refs_shared bot0) by constructor.
+  destruct (bsteps_as_steps lower world l bot0 Hs0 Hok Hg) as [ops [Ho [_ [Ed _]]]].
+  assert (Hv : v = s_cbs (steps lower world st0 ops)).
+  { unfold v. rewrite (view_shared b h); [exact Ed|apply bsteps_shared; exact Hs0|exact Hh]. }
+  rewrite Hv. apply C20_history_invariant_from_empty. exact Ho.
+Qed.
+Print Assumptions C20_networks_invariant.
+
+(* ================= non-vacuity ================= *)
+(* a 6-operation history (boot Owner, boot Misc, load Alpha, load Beta, a reload of Alpha whose
+   import raises, a load of Cyc whose callBefore=Owner is cyclic): every hypothesis of the history
+   theorems holds on it, the failing reload keeps Alpha, the cyclic load is refused and registers
+   nothing; in the final state `shared` is ambiguous between Beta and Alpha, `alpha shared` and `c1`
+   reach Alpha, nothing of the refused Cyc resolves *)
+Theorem C20_history_example :
+  (Forall op_ok ops6 /\ Forall (op_guarded lower_ascii) ops6 /\ Forall op_dom ops6 /\
+   good_st lower_ascii st0 /\
+   owner_head lower_ascii (s_cbs (steps lower_ascii w6 st0 [Boot nOwner id_oracle]))) /\
+  map (fun rn => (fst rn, snd rn)) (trace lower_ascii w6 st0 ops6) =
+  [(Ok 0%N, [nOwner]); (Ok 0%N, [nOwner; nMisc]); (Ok 0%N, [nOwner; nAlpha; nMisc]);
+   (Ok 0%N, [nOwner; nBeta; nAlpha; nMisc]);
+   (Raise OtherError, [nOwner; nBeta; nAlpha; nMisc]);
+   (Raise AssertionError, [nOwner; nBeta; nAlpha; nMisc])] /\
+  (let l := s_cbs (steps lower_ascii w6 st0 ops6) in
+   (exists a b, final_eval lower_ascii canon_ascii g6 l [k_shared] = Ambiguous [b; a] /\ cname a = nAlpha /\ cname b = nBeta) /\
+   (exists a, final_eval lower_ascii canon_ascii g6 l [k_alpha; k_shared] = Call a 2 /\ cname a = nAlpha) /\
+   (exists a, final_eval lower_ascii canon_ascii g6 l [k_c1] = Call a 1 /\ cname a = nAlpha) /\
+   final_eval lower_ascii canon_ascii g6 l [k_c3] = Invalid /\
+   final_eval lower_ascii canon_ascii g6 l [k_cyc; k_c3] = Invalid).
+Proof.
+  split; [exact history6_hyps|]. split; [exact history6_trace|].
+  destruct history6_resolution as [_ H]. exact H.
+Qed.
+Print Assumptions C20_history_example.
